@@ -102,6 +102,7 @@ theorem ruleTestOn_ofPy_error (r : RuleM) (doc : PyVal) (e : Exc) (h : DataV.ofP
 theorem test_castfree (r : RuleM) (doc copy : PyVal) (hc : r.cast = []) :
     r.test doc copy = (ruleTestOn r doc).map (fun t => (t, copy)) := by
   unfold RuleM.test
+  rw [castSource_eq]
   cases hd : DataV.ofPy doc with
   | error e => simp [ruleTestOn_ofPy_error r doc e hd, bind, Except.bind, Except.map]
   | ok d =>
